@@ -1494,3 +1494,500 @@ Proof.
   - intros o. simpl. unfold do_child_exit. simpl. intros H.
     apply (f_equal alive) in H. simpl in H. discriminate.
 Qed.
+
+(** ---- `_run_finished` exists as soon as a run was started ---- *)
+Definition JI (s : state) : Prop :=
+  run_finished s = None -> st_fsm s <> Running /\ st_fsm s <> Finished.
+
+Ltac ji HJ := unfold JI in *; fsimpl; rewrite ?cf_rf, ?cf_fsm; simpl;
+  first [ exact HJ | intros _; split; discriminate | intros; discriminate ].
+
+Lemma JI_refuse s t c : JI s -> JI (refuse s t c).
+Proof. intros HJ. unfold refuse. destruct (is_cont c); [destruct (cont_closed (release s))|]; ji HJ. Qed.
+
+Lemma JI_close_trigger s t : JI s -> JI (close_trigger s t).
+Proof.
+  intros HJ. unfold close_trigger, close_enter_closed.
+  destruct (st_fsm s) eqn:Efs; try destruct (runt s); try (ji HJ);
+    unfold JI in *; fsimpl; rewrite ?Efs; try exact HJ; intros; split; discriminate.
+Qed.
+
+Lemma JI_enter_close s t : JI s -> JI (enter_close s t).
+Proof.
+  intros HJ. unfold enter_close. assert (HJ1 : JI (publish s PEndAll)) by exact HJ.
+  destruct (st_fsm (publish s PEndAll)) eqn:Efs; try (apply JI_close_trigger; exact HJ1).
+  destruct (run_finished (publish s PEndAll)) as [[|]|] eqn:Erf;
+    [apply JI_close_trigger; exact HJ1 | ji HJ | ji HJ].
+Qed.
+
+Lemma JI_enter s t c b : JI s -> JI (enter s t c b).
+Proof.
+  intros HJ. unfold enter, enter_start, enter_run, enter_reset.
+  destruct c; auto; try (destruct b; [apply JI_enter_close; auto|]);
+    destruct (st_fsm s); try (apply JI_refuse; auto); try (destruct (o_stmt o)); ji HJ.
+Qed.
+
+Lemma JI_acquire s t c b : JI s -> JI (acquire s t c b).
+Proof.
+  intros HJ. unfold acquire. destruct (holder s); [exact HJ|]. destruct (lockq s); [|exact HJ].
+  apply JI_enter. exact HJ.
+Qed.
+
+Lemma JI_step s l : JI s -> JI (step s l).
+Proof.
+  intros HJ. destruct l as [t c | t | | o]; simpl.
+  - unfold do_call. destruct (find_task (tasks s) t); auto.
+    destruct c; cbn [nl_started nl_closed cont_closed running_process send_command set_trace];
+      repeat match goal with |- context [if ?b then _ else _] => destruct b end;
+      try (apply JI_acquire); exact HJ.
+  - unfold do_step. destruct (find_task (tasks s) t) as [[c p]|]; auto.
+    destruct p; auto;
+    first [ apply JI_enter; exact HJ
+          | solve [ji HJ]
+          | solve [destruct c; try (ji HJ); apply JI_acquire; ji HJ]
+          | solve [destruct (started_ev s); auto; ji HJ]
+          | solve [destruct c; auto; ji HJ]
+          | solve [unfold reset_reinit; destruct (st_fsm s) eqn:Efs; try (ji HJ); destruct (runt s); ji HJ]
+          | solve [unfold reset_reinit; destruct (runt s); auto; ji HJ]
+          | solve [destruct (run_finished s) as [[|]|]; auto; apply JI_close_trigger; auto]
+          | solve [unfold close_enter_closed; destruct (runt s); auto; ji HJ]
+          | solve [destruct (run_finished s) as [[|]|]; auto; ji HJ] ].
+  - assert (Hrf : forall s1, run_finished s1 = run_finished s -> st_fsm s1 = st_fsm s -> JI (run_finish s1)).
+    { intros s1 E1 E2. unfold run_finish. simpl. rewrite E2. destruct (st_fsm s) eqn:Efs; try (unfold JI; simpl; intros; discriminate).
+      unfold JI in *. simpl. rewrite cf_rf. simpl. rewrite E1. intros H. destruct (HJ H). congruence. }
+    unfold do_step_run. destruct (runt s) as [[]|]; auto;
+      first [ solve [ji HJ]
+            | solve [destruct (run_arg s); [exact HJ | apply Hrf; auto]]
+            | solve [simpl; destruct (run_arg s); [exact HJ | apply Hrf; auto]]
+            | solve [destruct (run_call_pending s); auto; destruct (pending_exit s); auto; simpl;
+                     destruct (run_arg s); [exact HJ | apply Hrf; auto]]
+            | solve [apply Hrf; auto] ].
+  - unfold do_child_exit. destruct (alive s); auto.
+Qed.
+
+Lemma JI_reachable a b c d ls : JI (run_labels (init_state a b c d) ls).
+Proof.
+  unfold run_labels. assert (H0 : JI (init_state a b c d)) by (unfold JI; simpl; intros _; split; discriminate).
+  revert H0. generalize (init_state a b c d).
+  induction ls as [|l ls IH]; intros s HJ; simpl; auto. apply IH. apply JI_step. exact HJ.
+Qed.
+
+(** ---- which labels are enabled ---- *)
+Definition blocked (s : state) (t : nat) : bool :=
+  match find_task (tasks s) t with
+  | None => true
+  | Some (c, p) =>
+    match p with
+    | WaitLock1 | WaitLock2 => true
+    | R_WaitStarted => if started_ev s then false else true
+    | P_WaitRunFinished | C_WaitRunFinished => match run_finished s with Some true => false | _ => true end
+    | Z_WaitRunTask | C_WaitRunTask => match runt s with None => false | Some _ => true end
+    | Z_G1 => match c with CReset _ => false | _ => true end
+    | _ => false
+    end
+  end.
+
+Definition run_blocked (s : state) : bool :=
+  match runt s with
+  | None => true
+  | Some RT_WaitChild =>
+    if run_call_pending s then true else match pending_exit s with None => true | Some _ => false end
+  | Some _ => false
+  end.
+
+Ltac en tac := split; [let H := fresh in intros H; discriminate H | intros _; tac].
+Ltac bl := split; [intros _; reflexivity | let H := fresh in intros H; discriminate H].
+
+Lemma do_step_progress s t : LkS s -> FI s ->
+  (blocked s t = true -> do_step s t = s) /\ (blocked s t = false -> (mu (do_step s t) < mu s)%nat).
+Proof.
+  intros HL HF. unfold blocked, do_step. destruct (find_task (tasks s) t) as [[c p]|] eqn:Ef; [|bl].
+  pose proof (lk_compat _ _ _ HL _ _ _ Ef) as Hc.
+  assert (Hhold : locked_pc p = true -> holder s = Some t) by (intros Hl; eapply (lk_holder_of _ _ _ HL); eauto).
+  destruct p; simpl in Hhold; try specialize (Hhold eq_refl); try bl.
+  - en ltac:(eapply mu_enter; eauto).
+  - en ltac:(eapply mu_enter; eauto).
+  - en ltac:(mu_in Ef).
+  - en ltac:(mu_in Ef).
+  - (* S_G3 *) en ltac:(idtac). destruct c; simpl in Hc; try discriminate.
+    + mu_lv HL Hhold Ef.
+    + destruct (lockq s) as [|t1 q] eqn:Eq.
+      * rewrite acquire_free by (rewrite ?release_holder, ?release_lockq, Eq; reflexivity).
+        destruct (requeue_inv s t HL HF Hhold Eq) as (HL2 & HF2).
+        set (s2 := set_pc (set_holder (release s) (Some t)) t CClose Granted2) in *.
+        assert (H1 : (mu s2 < mu s)%nat).
+        { unfold s2. eapply mu_leave_put; [exact HL | exact Hhold | exact Ef | fsimpl; reflexivity
+                                          | unfold sc; fsimpl; reflexivity | simpl; lia]. }
+        assert (H2 : (mu (enter s2 t CClose true) < mu s2)%nat).
+        { eapply mu_enter; eauto; try reflexivity. unfold s2. simpl. apply find_put_eq. }
+        lia.
+      * rewrite (acquire_busy _ _ _ _ t1) by (rewrite release_holder, Eq; reflexivity).
+        eapply mu_leave_put; [exact HL | exact Hhold | exact Ef | fsimpl; rewrite Eq; reflexivity
+                             | unfold sc; fsimpl; reflexivity | simpl; lia].
+  - destruct (started_ev s); [en ltac:(mu_in Ef) | bl].
+  - (* R_G *) en ltac:(idtac). destruct c; simpl in Hc; try discriminate; first [mu_lv HL Hhold Ef | mu_lp HL Hhold Ef].
+  - destruct c; simpl in Hc; try discriminate. en ltac:(mu_in Ef).
+  - (* Z_G1b *) en ltac:(idtac). unfold reset_reinit. destruct (st_fsm s); try (mu_in Ef; fail).
+    destruct (runt s); mu_in Ef.
+  - unfold reset_reinit. destruct (runt s); [bl | en ltac:(mu_in Ef)].
+  - en ltac:(mu_in Ef).
+  - en ltac:(mu_lv HL Hhold Ef).
+  - (* C_WaitRunFinished *) destruct (run_finished s) as [[|]|]; try bl.
+    en ltac:(eapply mu_close_trigger; eauto; simpl; lia).
+  - unfold close_enter_closed. destruct (runt s); [bl | en ltac:(mu_in Ef)].
+  - en ltac:(mu_in Ef).
+  - en ltac:(mu_lv HL Hhold Ef).
+  - (* P_WaitRunFinished *) destruct (run_finished s) as [[|]|]; try bl.
+    en ltac:(eapply mu_free_leave; [exact Ef | reflexivity | reflexivity]).
+  - en ltac:(eapply mu_free_leave; [exact Ef | reflexivity | reflexivity]).
+Qed.
+
+Lemma step_run_progress s :
+  (run_blocked s = true -> do_step_run s = s) /\ (run_blocked s = false -> (mu (do_step_run s) < mu s)%nat).
+Proof.
+  unfold run_blocked, do_step_run. destruct (runt s) as [x|] eqn:Er; [|bl].
+  assert (Hrf : forall s1, tasks s1 = tasks s -> alive s1 = alive s ->
+                           (pe_n (pending_exit s1) + 4 <= rank_r (runt s) + pe_n (pending_exit s))%nat ->
+                           (mu (run_finish s1) < mu s)%nat).
+  { intros s1 Et Ea Hr. unfold mu. rewrite tasks_run_finish, Et.
+    pose proof (sc_run_finish s1). unfold sc at 2. rewrite Ea in *. lia. }
+  destruct x.
+  - en ltac:(idtac). destruct (run_arg s).
+    + unfold mu, sc. simpl. rewrite Er. simpl. lia.
+    + apply Hrf; auto. rewrite Er. cbn [rank_r]. lia.
+  - en ltac:(idtac). simpl. destruct (run_arg s).
+    + unfold mu, sc. simpl. rewrite Er. simpl. lia.
+    + apply Hrf; auto. rewrite Er. cbn [rank_r]. simpl. lia.
+  - en ltac:(idtac). unfold mu, sc. simpl. rewrite Er. simpl. lia.
+  - destruct (run_call_pending s); [bl|]. destruct (pending_exit s) as [o|] eqn:Epe; [|bl].
+    en ltac:(idtac). simpl. destruct (run_arg s).
+    + unfold mu, sc. simpl. rewrite Er, Epe. simpl. lia.
+    + apply Hrf; auto. rewrite Er, ?Epe. simpl. lia.
+  - en ltac:(idtac). apply Hrf; auto. rewrite Er. cbn [rank_r]. lia.
+  - en ltac:(idtac). unfold mu, sc. simpl. rewrite Er. simpl. lia.
+  - en ltac:(idtac). unfold mu, sc. simpl. rewrite Er. simpl. lia.
+Qed.
+
+Definition all_blocked (s : state) : bool := forallb (fun x => blocked s (fst x)) (tasks s).
+
+Lemma find_in ts t x : find_task ts t = Some x -> In (t, x) ts.
+Proof.
+  induction ts as [|[t' y] ts IH]; simpl; [discriminate|].
+  destruct (Nat.eqb t t') eqn:E.
+  - intros H. inversion H; subst. apply Nat.eqb_eq in E. subst. left. reflexivity.
+  - intros H. right. auto.
+Qed.
+
+Lemma all_blocked_spec s t x : all_blocked s = true -> find_task (tasks s) t = Some x -> blocked s t = true.
+Proof.
+  intros Hb Hf. unfold all_blocked in Hb. rewrite forallb_forall in Hb.
+  apply (Hb (t, x)). apply find_in. exact Hf.
+Qed.
+
+Lemma not_all_blocked s : all_blocked s = false -> exists t, blocked s t = false.
+Proof.
+  unfold all_blocked. generalize (tasks s) at 1. intros l. induction l as [|x l IH]; simpl; [discriminate|].
+  destruct (blocked s (fst x)) eqn:E; simpl; eauto.
+Qed.
+
+Definition waits_only_child (s : state) : Prop :=
+  runt s = Some RT_WaitChild /\ pending_exit s = None /\ alive s = 1%nat /\
+  run_call_pending s = false /\ st_fsm s = Running /\
+  (exists h c, holder s = Some h /\ find_task (tasks s) h = Some (c, C_WaitRunFinished)) /\
+  (forall t c p, find_task (tasks s) t = Some (c, p) ->
+     p = WaitLock1 \/ p = WaitLock2 \/ p = C_WaitRunFinished \/ p = P_WaitRunFinished).
+
+Lemma no_deadlock_inv s :
+  LkS s -> FI s -> CI s -> JI s ->
+  (exists t c p, find_task (tasks s) t = Some (c, p) /\ compat CClose p = true) ->
+  (exists t', (mu (step s (Step t')) < mu s)%nat) \/
+  (mu (step s StepRun) < mu s)%nat \/
+  (waits_only_child s /\
+   forall o, (mu (step s (ChildExit o)) < mu s)%nat /\ run_blocked (step s (ChildExit o)) = false).
+Proof.
+  intros HL HF HC HJ (t0 & c0 & p0 & Ef0 & Hlk).
+  destruct (all_blocked s) eqn:Hab.
+  2:{ left. destruct (not_all_blocked _ Hab) as (t' & Hb). exists t'. simpl.
+      apply (do_step_progress s t' HL HF). exact Hb. }
+  destruct (run_blocked s) eqn:Hrb.
+  2:{ right. left. simpl. apply (step_run_progress s). exact Hrb. }
+  right. right. pose proof HF as [HP HS].
+  (* the lock holder *)
+  assert (Hholder : exists h ch ph, holder s = Some h /\ find_task (tasks s) h = Some (ch, ph) /\ locked_pc ph = true).
+  { pose proof (all_blocked_spec _ _ _ Hab Ef0) as Hb0. unfold blocked in Hb0. rewrite Ef0 in Hb0.
+    assert (Hcase : waitlock p0 = true \/ locked_pc p0 = true) by (destruct p0; simpl in *; auto; discriminate).
+    destruct Hcase as [Hw | Hl].
+    - pose proof (lk_wait_q _ _ _ HL _ _ _ Ef0 Hw) as Hin.
+      destruct (holder s) as [h|] eqn:Eh.
+      + destruct (lk_holder_has _ _ _ HL h Eh) as (ch & ph & Hfh & Hlh). exists h, ch, ph. auto.
+      + exfalso. apply (lk_q_holder _ _ _ HL); auto. intros E. rewrite E in Hin. destruct Hin.
+    - exists t0, c0, p0. repeat split; auto. eapply (lk_holder_of _ _ _ HL); eauto. }
+  destruct Hholder as (h & ch & ph & Hh & Efh & Hlh).
+  pose proof (all_blocked_spec _ _ _ Hab Efh) as Hbh. unfold blocked in Hbh. rewrite Efh in Hbh.
+  pose proof (HP _ _ _ Efh) as Hokh. pose proof (lk_compat _ _ _ HL _ _ _ Efh) as Hch.
+  pose proof (ci_tasks _ HC _ _ _ Efh) as (_ & _ & _ & Hq4).
+  assert (Hlate : forall x, runt s = Some x -> st_fsm s <> Running -> run_blocked s = false).
+  { intros x Er Hnr. unfold run_blocked. rewrite Er.
+    destruct (early x) eqn:Ee; [exfalso; apply Hnr; eapply sc_early; eauto|].
+    destruct x; simpl in Ee; try discriminate; reflexivity. }
+  destruct ph; simpl in Hlh; try discriminate; try discriminate Hbh.
+  - (* R_WaitStarted, `started` not set: the run task has not reached the wait for the child *)
+    exfalso. destruct (Hq4 eq_refl) as (Hrun & Hrws).
+    destruct (started_ev s) eqn:Esev; [discriminate|].
+    unfold run_blocked in Hrb. destruct (runt s) as [[]|] eqn:Er; simpl in Hrws; try discriminate.
+    pose proof (ci_sev _ HC _ Er eq_refl). congruence.
+  - (* Z_G1 with a call that is not reset: excluded by [compat] *)
+    destruct ch; simpl in Hch; discriminate.
+  - (* Z_WaitRunTask *)
+    exfalso. destruct (runt s) as [x|] eqn:Er; [|discriminate].
+    rewrite (Hlate x eq_refl) in Hrb; [discriminate|]. intros E. rewrite E in Hokh. discriminate.
+  - (* C_WaitRunFinished *)
+    destruct (run_finished s) as [[|]|] eqn:Erf; try discriminate.
+    2:{ exfalso. destruct (HJ Erf) as (H1 & H2). simpl in Hokh. destruct (st_fsm s); try discriminate; congruence. }
+    destruct (runt s) as [x|] eqn:Er.
+    2:{ exfalso. apply (sc_rf_none _ _ _ _ _ _ HS); auto. }
+    assert (Hpend : run_call_pending s = false) by (unfold run_call_pending; rewrite Hh, Efh; reflexivity).
+    assert (Hx : x = RT_WaitChild /\ pending_exit s = None).
+    { unfold run_blocked in Hrb. rewrite Er, Hpend in Hrb. destruct x; try discriminate.
+      destruct (pending_exit s); [discriminate | auto]. }
+    destruct Hx as (-> & Hpe).
+    assert (Hrun : st_fsm s = Running) by (eapply sc_early; eauto).
+    assert (Hal : alive s = 1%nat).
+    { pose proof (sc_child _ _ _ _ _ _ HS) as Hch'. rewrite ?Er in Hch'. simpl in Hch'.
+      destruct Hch' as [(? & _) | (_ & Hne)]; auto. congruence. }
+    split.
+    + repeat split; auto. { exists h, ch. auto. }
+      intros t c p Ef. pose proof (all_blocked_spec _ _ _ Hab Ef) as Hb. unfold blocked in Hb. rewrite Ef in Hb.
+      pose proof (HP _ _ _ Ef) as Hok. rewrite Hrun in Hok.
+      pose proof (lk_compat _ _ _ HL _ _ _ Ef) as Hcc.
+      destruct p; simpl in Hok; try discriminate; auto.
+      rewrite (ci_sev _ HC _ Er eq_refl) in Hb. discriminate.
+    + intros o. simpl. unfold do_child_exit. rewrite Hal. split.
+      * unfold mu, sc. simpl. rewrite Hal, Hpe. simpl. lia.
+      * unfold run_blocked. simpl. rewrite Er. change (run_call_pending _) with (run_call_pending s).
+        rewrite Hpend. reflexivity.
+  - (* C_WaitRunTask *)
+    exfalso. destruct (runt s) as [x|] eqn:Er; [|discriminate].
+    rewrite (Hlate x eq_refl) in Hrb; [discriminate|]. intros E. rewrite E in Hokh. discriminate.
+Qed.
+
+(** ---- a call in flight stays in the table while other tasks move ---- *)
+Definition Pers (ts ts' : ttab) (t : nat) : Prop :=
+  forall c p, find_task ts t = Some (c, p) -> exists p', find_task ts' t = Some (c, p').
+
+Lemma pers_refl ts t : Pers ts ts t.
+Proof. intros c p H. eauto. Qed.
+Lemma pers_trans a b c t : Pers a b t -> Pers b c t -> Pers a c t.
+Proof. intros H1 H2 c0 p Hf. destruct (H1 _ _ Hf) as (p1 & Hf1). eauto. Qed.
+Lemma pers_put ts t t' x : t <> t' -> Pers ts (put_task ts t' x) t.
+Proof. intros Hn c p Hf. exists p. rewrite find_put_neq; auto. Qed.
+Lemma pers_remove ts t t' : t <> t' -> Pers ts (remove_task ts t') t.
+Proof. intros Hn c p Hf. exists p. rewrite find_remove_neq; auto. Qed.
+Lemma pers_rel q ts t : Pers ts (rel_tasks q ts) t.
+Proof.
+  intros c p Hf. unfold rel_tasks. destruct q as [|t1 q]; eauto.
+  destruct (find_task ts t1) as [[c1 p1]|] eqn:E; eauto.
+  destruct (Nat.eq_dec t t1) as [->|Hn].
+  - rewrite find_put_eq. rewrite Hf in E. inversion E; subst. eauto.
+  - rewrite find_put_neq by assumption. eauto.
+Qed.
+
+Lemma pers_HRes s t' s' t : t <> t' -> HRes s t' s' -> Pers (tasks s) (tasks s') t.
+Proof.
+  intros Hn [(_ & _ & c & p & _ & _ & E) | [(_ & _ & E) | (_ & _ & c & p & _ & _ & _ & E)]]; rewrite E.
+  - apply pers_put; auto.
+  - eapply pers_trans; [apply pers_rel | apply pers_remove; auto].
+  - eapply pers_trans; [apply pers_rel | apply pers_put; auto].
+Qed.
+
+Ltac pers_tac Hn :=
+  fsimpl;
+  first [ apply pers_refl
+        | apply pers_put; exact Hn
+        | apply pers_remove; exact Hn
+        | eapply pers_trans; [apply pers_rel | apply pers_remove; exact Hn]
+        | eapply pers_trans; [apply pers_rel | apply pers_put; exact Hn] ].
+
+Lemma do_step_other s t' t : LkS s -> t <> t' -> Pers (tasks s) (tasks (do_step s t')) t.
+Proof.
+  intros HL Hn. unfold do_step. destruct (find_task (tasks s) t') as [[c p]|] eqn:Ef; [|apply pers_refl].
+  pose proof (lk_compat _ _ _ HL _ _ _ Ef) as Hc.
+  destruct p; try (pers_tac Hn; fail).
+  - apply (pers_HRes s t'); auto. apply HRes_enter; eauto.
+  - apply (pers_HRes s t'); auto. apply HRes_enter; eauto.
+  - (* S_G3 *) destruct c; simpl in Hc; try discriminate; [pers_tac Hn|].
+    unfold acquire. rewrite release_holder, release_lockq.
+    destruct (rel_holder (lockq s)); [pers_tac Hn|]. destruct (tl (lockq s)); [|pers_tac Hn].
+    set (s2 := set_pc (set_holder (release s) (Some t')) t' CClose Granted2).
+    eapply (pers_trans _ (tasks s2)); [unfold s2; pers_tac Hn|].
+    apply (pers_HRes s2 t'); auto. apply HRes_enter_close.
+  - destruct (started_ev s); pers_tac Hn.
+  - destruct c; simpl in Hc; try discriminate; pers_tac Hn.
+  - destruct c; simpl in Hc; try discriminate; pers_tac Hn.
+  - unfold reset_reinit. destruct (st_fsm s); try (pers_tac Hn; fail). destruct (runt s); pers_tac Hn.
+  - unfold reset_reinit. destruct (runt s); pers_tac Hn.
+  - destruct (run_finished s) as [[|]|]; try apply pers_refl. apply (pers_HRes s t'); auto. apply HRes_close_trigger.
+  - unfold close_enter_closed. destruct (runt s); pers_tac Hn.
+  - destruct (run_finished s) as [[|]|]; pers_tac Hn.
+Qed.
+
+Definition HasC (ts : ttab) (t : nat) : Prop := exists p, find_task ts t = Some (CClose, p).
+
+Lemma RetsClose_pre s s1 s' t : Quiet s s1 -> RetsClose s1 s' t -> RetsClose s s' t.
+Proof.
+  intros (n1 & E1 & H1) (new & E & Hn & Hrest). exists (new ++ n1). split; [|split; auto].
+  - rewrite E, E1, app_assoc. reflexivity.
+  - apply noret_app; auto.
+Qed.
+
+Ltac hasc := left; eexists; fsimpl; apply find_put_eq.
+
+Lemma own_close_trigger s t :
+  In (EvPub PEndAll) (trace s) ->
+  HasC (tasks (close_trigger s t)) t \/ RetsClose s (close_trigger s t) t.
+Proof.
+  intros Hin. unfold close_trigger, close_enter_closed. destruct (st_fsm s) eqn:Efs; try hasc.
+  - destruct (runt s); hasc.
+  - right. unfold RetsClose. ext_tac. fsimpl. repeat split; auto.
+Qed.
+
+Lemma own_enter_close s t :
+  (st_fsm s = Running -> run_finished s = Some false) ->
+  HasC (tasks (enter_close s t)) t \/ RetsClose s (enter_close s t) t.
+Proof.
+  intros Hrf. unfold enter_close.
+  assert (HQ : Quiet s (publish s PEndAll)) by quiet_tac.
+  assert (Hct : HasC (tasks (close_trigger (publish s PEndAll) t)) t \/
+                RetsClose s (close_trigger (publish s PEndAll) t) t).
+  { destruct (own_close_trigger (publish s PEndAll) t) as [H|H]; [simpl; auto | auto |].
+    right. eapply RetsClose_pre; eauto. }
+  destruct (st_fsm (publish s PEndAll)) eqn:Efs; simpl in Efs; auto.
+  simpl. rewrite (Hrf Efs). hasc.
+Qed.
+
+Lemma own_do_step s t p :
+  LkS s -> FI s -> CI s -> find_task (tasks s) t = Some (CClose, p) ->
+  HasC (tasks (do_step s t)) t \/ RetsClose s (do_step s t) t.
+Proof.
+  intros HL HF HC Ef. unfold do_step. rewrite Ef.
+  pose proof (FI_rf _ HF) as Hrf. pose proof HF as [HP HS].
+  pose proof (HP _ _ _ Ef) as Hok.
+  pose proof (lk_compat _ _ _ HL _ _ _ Ef) as Hc.
+  pose proof (ci_tasks _ HC _ _ _ Ef) as (Hq1 & Hq2 & Hq3 & Hq4).
+  assert (Hsame : HasC (tasks s) t) by (exists p; exact Ef).
+  destruct p; simpl in Hc; try discriminate; auto; try hasc.
+  - (* Granted1: excluded *) destruct (Hq1 (or_intror eq_refl)) as (_ & Hn). congruence.
+  - (* Granted2 *) unfold enter. apply own_enter_close. auto.
+  - (* S_G3 *)
+    unfold acquire. rewrite release_holder, release_lockq.
+    destruct (rel_holder (lockq s)); [hasc|]. destruct (tl (lockq s)); [|hasc].
+    set (s2 := set_pc (set_holder (release s) (Some t)) t CClose Granted2).
+    assert (HQ : Quiet s s2) by (apply Quiet_refl; unfold s2; fsimpl; reflexivity).
+    unfold enter. destruct (own_enter_close s2 t) as [H|H]; auto.
+    + unfold s2. fsimpl. exact Hrf.
+    + right. eapply RetsClose_pre; eauto.
+  - (* C_WaitRunFinished *) destruct (run_finished s) as [[|]|]; auto. apply own_close_trigger. auto.
+  - (* C_WaitRunTask *) unfold close_enter_closed. destruct (runt s); auto. hasc.
+  - (* C_G4 *) right. unfold RetsClose. ext_tac. fsimpl.
+    simpl in Hok. destruct (st_fsm s); try discriminate. repeat split; auto.
+Qed.
+
+Lemma close_task_step s l t :
+  LkS s -> FI s -> CI s -> HasC (tasks s) t -> internal l = true ->
+  HasC (tasks (step s l)) t \/ RetsClose s (step s l) t.
+Proof.
+  intros HL HF HC (p & Ef) Hi. destruct l as [? ? | t' | | o]; try discriminate; simpl.
+  - destruct (Nat.eq_dec t t') as [<-|Hn].
+    + eapply own_do_step; eauto.
+    + left. destruct (do_step_other s t' t HL Hn _ _ Ef) as (p' & Hf'). exists p'. exact Hf'.
+  - left. exists p. destruct (slk_step_run s) as (_ & _ & E). rewrite E. exact Ef.
+  - left. exists p. unfold do_child_exit. destruct (alive s); exact Ef.
+Qed.
+
+Lemma close_completes_inv t : forall n s,
+  (mu s < n)%nat -> LkS s -> FI s -> CI s -> JI s -> HasC (tasks s) t ->
+  exists pre l, Forall (fun x => internal x = true) (pre ++ [l]) /\
+                RetsClose (run_labels s pre) (run_labels s (pre ++ [l])) t.
+Proof.
+  induction n as [|n IH]; intros s Hmu HL HF HC HJ Hc; [lia|].
+  assert (Hen : exists l, internal l = true /\ (mu (step s l) < mu s)%nat).
+  { destruct Hc as (p & Ef).
+    destruct (no_deadlock_inv s HL HF HC HJ) as [(t' & H) | [H | (_ & H)]].
+    - exists t, CClose, p. split; auto. apply (lk_compat _ _ _ HL _ _ _ Ef).
+    - exists (Step t'). auto.
+    - exists StepRun. auto.
+    - exists (ChildExit OReturn). split; auto. apply H. }
+  destruct Hen as (l & Hi & Hlt).
+  destruct (close_task_step s l t HL HF HC Hc Hi) as [Hc1 | HR].
+  - destruct (IH (step s l)) as (pre & l' & Hall & HR); auto; try lia.
+    + apply LkS_step; auto. + apply FI_step; auto. + apply CI_step; auto. + apply JI_step; auto.
+    + exists (l :: pre), l'. split; [constructor; auto | exact HR].
+  - exists [], l. split; [constructor; auto | exact HR].
+Qed.
+
+(** ---- B, for every reachable state ---- *)
+Theorem no_deadlock : forall stmt start th md ls,
+  let s := run_labels (init_state stmt start th md) ls in
+  (exists t c p, find_task (tasks s) t = Some (c, p) /\ compat CClose p = true) ->
+  (exists t', (mu (step s (Step t')) < mu s)%nat) \/
+  (mu (step s StepRun) < mu s)%nat \/
+  (waits_only_child s /\
+   forall o, (mu (step s (ChildExit o)) < mu s)%nat /\ run_blocked (step s (ChildExit o)) = false).
+Proof.
+  intros stmt start th md ls s. destruct (all_inv stmt start th md ls) as (HL & HF & HC).
+  apply no_deadlock_inv; auto. apply JI_reachable.
+Qed.
+
+Lemma StepOK_ext s s' t c : StepOK s s' t c -> exists new, trace s' = new ++ trace s.
+Proof.
+  intros [(new & E & _) | [(_ & new & E & _) | (_ & r & new & E & _)]].
+  - eauto.
+  - exists (EvRet t CClose ROk :: new). exact E.
+  - exists (EvRet t c r :: new). exact E.
+Qed.
+
+Lemma step_trace_ext s l : LkS s -> FI s -> CI s -> exists new, trace (step s l) = new ++ trace s.
+Proof.
+  intros HL HF HC. destruct l as [t c | t | | o]; simpl.
+  - destruct (find_task (tasks s) t) eqn:Ef.
+    + unfold do_call. rewrite Ef. exists []. reflexivity.
+    + destruct (SO_do_call s t c HF HC Ef) as [(_ & _ & E) | (_ & H)].
+      * rewrite E. exists [EvRet t CClose ROk; EvCall t CClose]. reflexivity.
+      * eapply StepOK_ext; eauto.
+  - destruct (find_task (tasks s) t) as [[c p]|] eqn:Ef.
+    + eapply StepOK_ext. eapply SO_do_step; eauto.
+    + unfold do_step. rewrite Ef. exists []. reflexivity.
+  - destruct (Quiet_step_run s) as (n & E & _). eauto.
+  - destruct (Quiet_child_exit s o) as (n & E & _). eauto.
+Qed.
+
+Lemma run_trace_ext ls : forall s, LkS s -> FI s -> CI s -> exists new, trace (run_labels s ls) = new ++ trace s.
+Proof.
+  induction ls as [|l ls IH]; intros s HL HF HC; simpl; [exists []; reflexivity|].
+  destruct (IH (step s l)) as (n1 & E1); [apply LkS_step | apply FI_step | apply CI_step |]; auto.
+  destruct (step_trace_ext s l HL HF HC) as (n2 & E2).
+  exists (n1 ++ n2). rewrite E1, E2, app_assoc. reflexivity.
+Qed.
+
+Theorem close_completes : forall stmt start th md ls t p,
+  let s := run_labels (init_state stmt start th md) ls in
+  find_task (tasks s) t = Some (CClose, p) ->
+  exists ls', Forall (fun x => internal x = true) ls' /\
+    let s' := run_labels s ls' in
+    hd_error (trace s') = Some (EvRet t CClose ROk) /\ closed_down s' /\
+    exists new, trace s' = new ++ trace s /\ In (EvRet t CClose ROk) new.
+Proof.
+  intros stmt start th md ls t p s Ef. destruct (all_inv stmt start th md ls) as (HL & HF & HC).
+  fold s in HL, HF, HC.
+  destruct (close_completes_inv t (S (mu s)) s) as (pre & l & Hall & HR); auto.
+  - apply JI_reachable.
+  - exists p. exact Ef.
+  - exists (pre ++ [l]). split; auto. cbv zeta.
+    destruct (inv_run s (pre ++ [l]) HL HF HC) as (_ & HF' & _).
+    pose proof (RetsClose_down _ _ _ HF' HR) as Hd.
+    destruct HR as (new & E & _). split; [rewrite E; reflexivity|]. split; auto.
+    destruct (run_trace_ext pre s HL HF HC) as (n0 & E0).
+    exists (EvRet t CClose ROk :: new ++ n0). split.
+    + rewrite E, E0. simpl. rewrite app_assoc. reflexivity.
+    + left. reflexivity.
+Qed.
